@@ -103,6 +103,7 @@ P1 = functools.partial(H2, 3)
 P2 = functools.partial(H2, y=2)
 G1 = 1
 G2 = 10
+zG3 = 100      # a global whose name sorts after the local variables
 '''
 
 PARAMS = ['a', 'b', 'c', 'xs', 'o', 'd']
@@ -342,7 +343,7 @@ class Gen(object):
     if r < 0.55 and names:
       return self.rng.choice(names)
     if r < 0.62 and self.p.use_global and not self.p.pure:
-      return self.rng.choice(['G1', 'G2'])
+      return self.rng.choice(['G1', 'G2', 'zG3'])
     if r < 0.70 and self.p.use_attrs:
       return self.rng.choice(['o.p', 'o.q', "d['k']", "d['m']"])
     return str(self.rng.choice([0, 1, 2, 3, 5, 7, -1, -2]))
@@ -1011,7 +1012,7 @@ class Gen(object):
     self.emit(ind, 'def %s(%s):' % (name, SIG))
     blk = Block({'a', 'b', 'c'}, set())
     if self.p.use_global and self.chance(0.3):
-      gs = self.rng.sample(['G1', 'G2'], self.rng.randint(1, 2))
+      gs = self.rng.sample(['G1', 'G2', 'zG3'], self.rng.randint(1, 2))
       self.emit(ind + 1, 'global %s' % ', '.join(gs))
       fc.globals_declared = set(gs)
     top_idx = len(self.lines)
